@@ -34,6 +34,7 @@ type c17Scenario struct {
 	Welcome    string    `json:"welcome"` // same, other
 	JoinChan   bool      `json:"join_chan"` // tracking: share a channel with other users
 	PlainWelcome bool    `json:"plain_welcome"` // the welcome text does not end in nick!user@host
+	ForeignMask  bool    `json:"foreign_mask"`  // the welcome text ends in somebody else's mask (a contact address)
 	LateGen    bool      `json:"late_generator"` // Config().NewNick is assigned after Client(), before Connect()
 	SwapGen    string    `json:"swap_generator"` // "" or the generator the application installs through Config() after the welcome
 	Steps      []c17Step `json:"steps"`
@@ -66,10 +67,11 @@ func genC17(t *rapid.T) *c17Scenario {
 		Nick:      rapid.SampledFrom([]string{"me", "bot", "Nick9", "z}", "a"}).Draw(t, "nick"),
 		Tracking:  rapid.Bool().Draw(t, "tracking"),
 		Generator: rapid.SampledFrom([]string{"default", "default", "underscore", "rotate", "table"}).Draw(t, "generator"),
-		PreRefuse: rapid.SampledFrom([]int{0, 0, 1, 2, 4}).Draw(t, "pre_refuse"),
+		PreRefuse: rapid.SampledFrom([]int{0, 0, 1, 2, 4, 0, 0, 1, 2, 4, 10, 12, 62}).Draw(t, "pre_refuse"), // (10 and 62: once round the last character's alphabet)
 		Welcome:   rapid.SampledFrom([]string{"same", "same", "other"}).Draw(t, "welcome"),
 		JoinChan:  rapid.Bool().Draw(t, "join_chan"),
 		PlainWelcome: rapid.Bool().Draw(t, "plain_welcome"),
+		ForeignMask:  rapid.IntRange(0, 3).Draw(t, "foreign_mask") == 0,
 		LateGen:      rapid.Bool().Draw(t, "late_generator"),
 	}
 	gen := c17Gen(sc.Generator)
@@ -258,7 +260,9 @@ func runC17(sc *c17Scenario) *Violation {
 	if sc.Welcome == "other" {
 		cur = "srvgiven"
 	}
-	if sc.PlainWelcome {
+	if sc.ForeignMask {
+		conn.SendLine(fmt.Sprintf(":irc.server 001 %s :Welcome to ExampleNet %s - problems? ask help!desk@example.net", cur, cur))
+	} else if sc.PlainWelcome {
 		conn.SendLine(fmt.Sprintf(":irc.server 001 %s :Welcome to the Internet Relay Network", cur))
 	} else {
 		conn.SendLine(fmt.Sprintf(":irc.server 001 %s :Welcome to the network %s!ident@client.host", cur, cur))
